@@ -8,6 +8,7 @@ mod codec;
 mod exec;
 mod proj;
 mod qdyn;
+mod sched;
 mod sim;
 mod simquic;
 mod util;
@@ -28,6 +29,7 @@ fn main() {
         "codec-rand" => codec::run_random(&args[2], args[3].parse().unwrap_or(0), args[4].parse().unwrap_or(1000), &args[5]),
         "sim" => sim::run_scenarios(&args[2], &args[3]),
         "qdyn" => qdyn::run(&args[2], &args[3]),
+        "sched" => sched::run(&args[2], &args[3]),
         other => Err(format!("unknown sub-command {other}")),
     };
     if let Err(e) = r {
